@@ -314,7 +314,7 @@ where
         // the map itself, and the original opening
         let Some((com, _reference)) = cx.commit_check(c, &m, &r, "original") else { continue };
         cx.opening_check(c, &com, &m, &r, "original-opening", "open/original", Some(true));
-        if bfc == 3 && mi == 5 && inst == 0 {
+        if bfc == 3 && (mi == 4 || mi == 5) {
             c.sample(json!({"kind": "opening", "group": G::NAME, "N": N, "source": source, "message_classes": mname,
                             "blinding_factor_class": SC_NAMES[bfc], "commitment": hex(&com.to_element().to_wire()),
                             "detail": cx.detail(&m, &r, json!(null))}));
